@@ -405,6 +405,31 @@ def check(run):
     except RaiseEx as e:
         ok, why = False, f'raises {e}'
     run.check(ok, 'D2', 'AdnlChannel.encrypt/decrypt[repeated packet]' if not ok else 'repeated plaintext / duplicated packet', why, we)
+    # packets of different sizes through one channel: each packet is 32 + 32 + len(data) bytes whatever was sent before (a send buffer kept
+    # between calls must not leave the tail of an earlier, longer packet behind)
+    for sizes in ((100, 40), (40, 100, 8), (1, 16, 1)):
+        it = mk(prog)
+        A, B = peer(prog, it, 'A'), peer(prog, it, 'B')
+        ida, idb = K(b'\x09' * 32), K(b'\x01' * 32)
+        chA = it.construct(AC, [A, server_view(prog, it, B), ida, idb], {})
+        chB = it.construct(AC, [B, server_view(prog, it, A), idb, ida], {})
+        ok, why = True, f'packets of {list(sizes)} bytes in a row: each is 64 + len(data) bytes and decrypts to its own plaintext'
+        try:
+            for i, n_ in enumerate(sizes):
+                Pi = Sym(f'PLAIN{i}', ty='bytes', n=n_, key=('plain', i)) if n_ else K(b'')
+                pk = Rope.of(it, cm.call_method(it, chA, 'encrypt', Pi))
+                if pk is None or pk.n != 64 + n_:
+                    ok, why = False, f'packets of {list(sizes)} bytes in a row: packet #{i + 1} is {None if pk is None else pk.n} bytes long, expected {64 + n_}'
+                    break
+                back = cm.call_method(it, chB, 'decrypt', pk.cut(it, 64, pk.n).simplify(), pk.cut(it, 32, 64).simplify())
+                same_ = back is Pi or (isinstance(back, K) and isinstance(Pi, K) and bytes(back.v) == bytes(Pi.v)) or repr(it.vkey(back)) == repr(it.vkey(Pi))
+                if not same_:
+                    ok, why = False, f'packets of {list(sizes)} bytes in a row: packet #{i + 1} decrypts to {vrepr(back)[:50]}, not to its plaintext'
+                    break
+        except RaiseEx as e:
+            ok, why = False, f'packets of {list(sizes)} bytes in a row: raises {e}'
+        run.check(ok, 'D2', 'AdnlChannel.encrypt[packets of different sizes in sequence]' if not ok else f'history: packets of {list(sizes)} bytes', why, we)
+        run.evaluations += len(sizes)
     # ---- D3 signatures
     ws = prog.where(prog.func('verify_sign'))
     it = mk(prog)
